@@ -213,6 +213,31 @@ func pieces(re *syntax.Regexp) []piece {
 	panic(reglErr("unsupported-construct: " + re.Op.String()))
 }
 
+// ExactLang: the set of strings matched as a whole by an anchor-free pattern
+func ExactLang(pattern string) (lang string, err error) {
+	defer func() {
+		if r := recover(); r != nil {
+			if e, ok := r.(reglErr); ok {
+				err = fmt.Errorf("%s", string(e))
+				return
+			}
+			panic(r)
+		}
+	}()
+	re, perr := syntax.Parse(pattern, syntax.Perl)
+	if perr != nil {
+		return "", perr
+	}
+	var alts []string
+	for _, p := range pieces(re) {
+		if p.b || p.e {
+			return "", fmt.Errorf("unsupported-construct: anchored pattern in ExactLang")
+		}
+		alts = append(alts, p.body)
+	}
+	return reUnion(alts), nil
+}
+
 // MatchLang: the set of strings s for which regexp.MatchString(pattern, s) is true.
 func MatchLang(pattern string) (lang string, err error) {
 	defer func() {
@@ -304,6 +329,7 @@ type ReglItem struct {
 	Allowed   string   `json:"allowed"`   // alternatively: Go regexp of the documented form; obligation L(m) ⊆ L(allowed)
 	Examples  []string `json:"examples"`  // documented examples that must be accepted (ground, evaluated)
 	Rejects   []string `json:"rejects"`   // strings that must be rejected (ground, evaluated)
+	MinLen    int      `json:"min_len"`   // every match (substring matched by the whole pattern) is at least this long
 }
 
 type ReglJob struct {
@@ -430,6 +456,30 @@ func reglJob(job, repo, prop string, thorough bool) ([]*Obligation, []string) {
 				return last, false
 			}
 			obls = append(obls, o)
+		}
+		if it.MinLen > 0 {
+			ex, err := ExactLang(lit.Pattern)
+			if err != nil {
+				errs = append(errs, fmt.Sprintf("%s: %v", it.Name, err))
+			} else {
+				raw := fmt.Sprintf("(set-option :produce-models true)\n(set-logic QF_SLIA)\n(declare-const s String)\n(assert (str.in_re s %s))\n(assert (< (str.len s) %d))\n(check-sat)\n(get-value (s))\n", ex, it.MinLen)
+				o := &Obligation{Name: "regl/" + it.Name + "/minlen", Fn: it.Name, Kind: "lang", Tags: []string{prop}, Raw: raw,
+					Src: fmt.Sprintf("every match of %s is at least %d bytes long   [pattern: %s]", it.Name, it.MinLen, lit.Pattern)}
+				o.Replay = func(r *OblResult, repo, verifDir string) (string, bool) {
+					for _, a := range r.Attempts {
+						if m := modelStrRe.FindStringSubmatch(a.Output); a.Result == "sat" && m != nil {
+							sv := decodeSMTString(m[1])
+							loc := real.FindStringIndex(sv)
+							if loc != nil && loc[1]-loc[0] < it.MinLen {
+								return fmt.Sprintf("model s = %q: real regexp matches %v (length %d)", sv, loc, loc[1]-loc[0]), true
+							}
+						}
+					}
+					return "no replayable model", false
+				}
+				obls = append(obls, o)
+			}
+			continue
 		}
 		forb := it.Forbidden
 		if forb == "" && it.Allowed == "" {
